@@ -385,9 +385,10 @@ def u_lhs_bounds(U):
     def body_end(ex_, s, o, j):
         cols = s.ghost.get('columns', [])
         ok = len(cols) == 1 and isinstance(cols[0][1], VArr) and cols[0][1].tag == 'ivec' and cols[0][1].t is not None
-        ex_.oblige(s, 'post', 'each-mode-fills-exactly-one-column-with-one-vector', z3.BoolVal(ok), None, assume=False)
         if not ok:
-            return
+            # the contract is keyed to ONE logged column store `I[:, c] = <integer vector>` per mode; a source that prepares the column
+            # in another way has not been seen by the store hook: the contract does not talk about this code (undecided)
+            raise M.ContractMismatch('sample_lhs: one mode does not fill exactly one column with one integer vector (as seen by the store model)')
         col, vec = cols[0]
         ex_.oblige(s, 'post', 'mode-c-fills-column-c-with-m-entries', z3.And(col == j, Z(vec.shape[0]) == m), None, assume=False)
         ex_.oblige(s, 'post', 'every-entry-of-column-c-lies-in-[0, n_c)', z3.Implies(z3.And(0 <= t_, t_ < m), z3.And(0 <= vec.t[t_], vec.t[t_] < narr[j])), None,
